@@ -223,3 +223,75 @@ def deep_leaf_attrs(ctx: Ctx, f: Func, t: Term, max_depth: int = 4) -> set[str]:
         if s[0] == "attr" and root_of(s)[0] in ("param", "rec"):
             out.add(s[2])
     return out
+
+
+# ------------------------------------------------------------ guarded values
+_IDENTITY_WRAPPERS = {("global", "numpy.asarray"), ("global", "numpy.array"), ("global", "numpy.asanyarray")}
+
+
+def norm_cond(c):
+    """(atom, polarity) of a boolean condition: `x is not None` -> (x is None, False), `not c` -> (c, False)."""
+    from .pattern import norm
+
+    c = norm(c)
+    pol = True
+    while True:
+        if c[0] == "unary" and c[1] in ("not", "~"):
+            c, pol = c[2], not pol
+            continue
+        if c[0] == "cmp" and c[1] == "is not":
+            c, pol = ("cmp", "is", c[2], c[3]), not pol
+            continue
+        if c[0] == "cmp" and c[1] == "!=":
+            c, pol = ("cmp", "==", c[2], c[3]), not pol
+            continue
+        return c, pol
+
+
+def guard_leaves(t, strip_wrappers: bool = True, _conds=()):
+    """Leaves of a value written with conditional expressions (after helper inlining:
+    early returns): yields (conditions, leaf) with conditions a tuple of (atom, polarity);
+    infeasible combinations (an atom with both polarities) are dropped.  `a and b`
+    conditions contribute both atoms on the true branch; on the false branch they are
+    kept as one compound atom."""
+    k = t[0]
+    if k == "ifexp":
+        atom, pol = norm_cond(t[1])
+        tc = [(atom, pol)]
+        fc = [(atom, not pol)]
+        if atom[0] == "bool" and atom[1] == "and" and pol:
+            tc = [norm_cond(x) for x in atom[2]]
+        if atom[0] == "bool" and atom[1] == "or" and not pol:
+            # not (a or b) on the true branch == (not a) and (not b)
+            tc = [(a, not p) for a, p in (norm_cond(x) for x in atom[2])]
+        if atom[0] == "bool" and atom[1] == "or" and pol:
+            fc = [(a, not p) for a, p in (norm_cond(x) for x in atom[2])]
+        if atom[0] == "bool" and atom[1] == "and" and not pol:
+            fc = [norm_cond(x) for x in atom[2]]
+        for extra, branch in ((tc, t[2]), (fc, t[3])):
+            conds = _conds + tuple(extra)
+            d = {}
+            feasible = True
+            for a, p in conds:
+                if d.setdefault(a, p) != p:
+                    feasible = False
+            if feasible:
+                yield from guard_leaves(branch, strip_wrappers, conds)
+        return
+    if k == "phi":
+        for a in t[1]:
+            yield from guard_leaves(a, strip_wrappers, _conds)
+        return
+    if strip_wrappers and k == "call" and t[1] in _IDENTITY_WRAPPERS and len(t[2]) == 1 and t[2][0][0] in ("ifexp", "phi"):
+        for conds, leaf in guard_leaves(t[2][0], strip_wrappers, _conds):
+            yield conds, ("call", t[1], (leaf,), t[3])
+        return
+    yield _conds, t
+
+
+def cond_value(conds, atom):
+    """True / False when the conditions fix `atom`, else None."""
+    for a, p in conds:
+        if a == atom:
+            return p
+    return None
